@@ -3,3 +3,6 @@ import XProofs.Properties.C04
 #print axioms Properties.C04.C04_inplace_complete
 #print axioms Properties.C04.C04_builtins
 #print axioms Properties.C04.C04_other_exceptions_propagate
+#print axioms Properties.C04.C04_eval_homomorphism_full
+#print axioms Properties.C04.C04_full_extends_fragment
+#print axioms Properties.C04.C04_table_complete
